@@ -75,6 +75,14 @@ def check_pos(case):
         diff = rc.structurally_equal_lib(r, l)
         if diff:
             return Fail(f'roots/structure-differs/{feat}', f'root {k}: {diff}; enc={e}')
+    # the caller does what it likes with the list it was given; the same bytes parsed again denote the same roots
+    got.append(got[0])
+    got[0] = got[-1].copy() if len(got[0].refs) else Cell.empty()
+    got.reverse()
+    ok, again = call(Cell.from_boc, data)
+    if not ok or not isinstance(again, list) or [x.hash for x in again] != [r.repr_hash() for r in roots]:
+        return Fail('roots/second-parse-of-the-same-bytes-differs', f'after the caller edited the list the first parse returned: '
+                    f'{again!r}'[:300])
     return None
 
 
@@ -296,7 +304,7 @@ def enum_special_bags(tier):
                     for magic in ('generic', 'idx'):
                         enc = dict(base, size_extra=extra, hashes=[0, 1, 2], magic=magic, crc=bool(extra))
                         yield {'spec': spec, 'enc': enc, 'roots': [-1]}
-    for total in (65537, 131073, 1 << 20) + ((3 * (1 << 18), (1 << 20) + 1) if tier != 'quick' else ()):
+    for total in (65537, 131073, 1 << 20, 1000000, 100000) + ((3 * (1 << 18), (1 << 20) + 1) if tier != 'quick' else ()):
         yield {'spec': boccases.bag_of_total_length(total), 'enc': dict(base), 'roots': [-1]}
 
 
